@@ -75,7 +75,8 @@ type dynStats struct {
 
 func runDynamic(t Tools, dir string, seed uint64, tier string, out *vl.Out) dynStats {
 	r := vl.NewRng(seed ^ 0xC07D)
-	nProg, nOpt, nRuns, budget, limit := 8, 4, 6, 80, 25*time.Second
+	// quick: 7 x 4 x (3+1) = 112 executions + 138 of the regression corpus = 250
+	nProg, nOpt, nRuns, budget, limit := 7, 4, 3, 80, 25*time.Second
 	if tier == "thorough" {
 		nProg, nOpt, nRuns, budget, limit = 40, 10, 20, 250, 90*time.Second
 	}
@@ -135,7 +136,7 @@ func runDynamic(t Tools, dir string, seed uint64, tier string, out *vl.Out) dynS
 	// order of a Go map reaching output bytes); each must give ONE hash over its runs. A Go 1.23 map of
 	// <= 8 entries is iterated from a random slot of its single bucket: two entries swap in 1 run of 8
 	// only, so the 2-entry witnesses get 40 runs (miss < 0.6%) and the 8-entry ones 16.
-	for ri, w := range regressionCorpus() {
+	for ri, w := range regressionCorpus(tier) {
 		d, ok := differs(t, w.p, w.o, filepath.Join(dir, "regress", fmt.Sprint(ri)), w.runs)
 		st.Executions += w.runs
 		st.Regression++
@@ -172,7 +173,7 @@ func runDynamic(t Tools, dir string, seed uint64, tier string, out *vl.Out) dynS
 			c := combos[k]
 			cwd := filepath.Join(c.dir, "again")
 			copyTree(filepath.Join(c.dir, "r0", "out"), filepath.Join(cwd, "out"))
-			c.res[nRuns] = runOne(t, c.o, c.idl, cwd, "out", gmp[2])
+			c.res[nRuns] = runOne(t, c.o, c.idl, cwd, "out", gmp[3])
 		})
 		for bi, c := range combos {
 			ci := base + bi
@@ -334,7 +335,11 @@ type witness struct {
 
 // regressionCorpus: inputs on which thriftgo's output used to differ from run to run: the three
 // minimal witnesses and wider variants (maps of 8 entries).
-func regressionCorpus() []witness {
+func regressionCorpus(tier string) []witness {
+	wideRuns := 6 // 8-entry maps: 8 equiprobable rotations, a miss in 6 runs has probability 8^-5
+	if tier == "thorough" {
+		wideRuns = 16
+	}
 	one := func(lines ...string) Prog { return Prog{Files: []IDLFile{{Name: "main0.thrift", Lines: lines}}} }
 	refl := OptSet{Name: "with_reflection", Backend: "go", Opts: []string{"with_reflection"}}
 	nofmt := OptSet{Name: "fastgo-no_fmt", Backend: "fastgo", Opts: []string{"no_fmt"}}
@@ -361,8 +366,8 @@ func regressionCorpus() []witness {
 		{"descriptor: two namespaces (minimal)", one("namespace go p0.main", "namespace rs p0.main"), refl, 40},
 		{"fastgo imports: fmt and unsafe (minimal)", one("struct S { 1: bool a }"), nofmt, 40},
 		{"plugin request: two names (minimal)", one("struct A {}", "struct B {}"), plug, 40},
-		{"descriptor: 8 includes, 8 namespaces, 8 annotations, 8 map entries", wide, refl, 16},
-		{"fastgo imports: 8 included packages", wide, nofmt, 16},
-		{"plugin request: 8 names, 8 includes", wide, plug, 16},
+		{"descriptor: 8 includes, 8 namespaces, 8 annotations, 8 map entries", wide, refl, wideRuns},
+		{"fastgo imports: 8 included packages", wide, nofmt, wideRuns},
+		{"plugin request: 8 names, 8 includes", wide, plug, wideRuns},
 	}
 }
